@@ -5,7 +5,7 @@ TRUST = ["CPython 3.12, sqlite3/SQLite 3.40 (atomic commit, recovery), Twisted T
          "process death only (no power loss); event interleavings are sequences (single-threaded server)"]
 
 H = "mon.checks.histcheck"
-COMMON_TAIL = ' Random histories also contain: connections whose closing handshake has begun but whose loss the server has not seen yet, every way a connection can end (clean with or without a close code, abrupt, dropped by the server on a ping timeout), connections that never complete the handshake, binds with a malformed client_version (not judged themselves), and - in half of the histories - identifiers that differ only in Unicode normalisation form / letter case / blanks and non-printables, are empty, or carry formatting characters; every fourth history runs on older database files (schema snapshots, usage db still at version 1).'
+COMMON_TAIL = ' Random histories also contain: connections whose closing handshake has begun but whose loss the server has not seen yet, every way a connection can end (clean with or without a close code, abrupt, dropped by the server on a ping timeout), connections that never complete the handshake, binds with a malformed client_version (not judged themselves), and - in half of the histories - identifiers that differ only in Unicode normalisation form / letter case / blanks and non-printables, are empty, or carry formatting characters; every fourth history runs on older database files (schema snapshots, usage db still at version 1). A second, grammar-based generator (mon/lifegen.py) adds channel life cycles: one to three channels per app, sides returning on new connections while old connections linger, restarts followed by idle or failed binds, time steps around the sweep period and the expiration time, a suspended process (one late sweep), probes at the end.'
 
 CHECKS = {
     "C01": dict(module=H, level="exploration",
